@@ -52,10 +52,6 @@ def main(argv):
         db = facts.DB(core.REPO)
         for i in range(1, 21):
             p = "C%02d" % i
-            try:
-                __import__("verif.rules.%s" % p.lower())
-            except ImportError:
-                continue
             r = core.run_property(p, tier, db=db)
             rc = max(rc, r)
         return rc
